@@ -1,13 +1,116 @@
 /-
-  Driver.OpsC06 — protocol operations for property C06 (filled in by the C06 work package).
-  Contract: `handleC06 op` returns the parser for operation `op` or `none` if `op` is not one of
-  this property's operations.
+  Driver.OpsC06 — protocol operations for property C06.
+
+  c06u  <whole fields> <k> <piece fields>*k
+        → hyp=<b> f3=<b> part=<b> conf=<b> ok=<b> okby=<b> model=<merged fields, tokens joined by ','>
+          (ok = Spec.readsAsWhole, okby = the name-indexed Spec.readsAsWholeBy the theorems speak about)
+  c06s  <isPoint> <ndim> { <npieces> n … }
+        → hyp=<b> idx=<indices of piece 0>;<piece 1>;…   (pieces in `_piece_locations` order)
+          cover=<b> once=<b> n=<number of merged entities>
+  c06sm <isPoint> <ndim> { <npieces> n … } <npieces total> { <nrows> id … }
+        → hyp=<b> model=<merged ids> (pieces given in `_piece_locations` order; -1 = never written)
+  c06pv <isPoint> <k> { b0 e0 b1 e1 b2 e2 }*k { <nrows> id … }*k
+        → sizes=<a,b|c|d> meshed=<dirs> locs=<..;..> model=<merged ids>
+  c06pr <k> { 6 extent ints }*k { <n> x… <n> y… <n> z… }*k
+        → model=<x ordinates|y ordinates|z ordinates> or model=E (the reader raises)
 -/
-import Driver.Proto
-namespace Fc.Drv
+import Driver.ProtoMesh
+import FcModel.Spec.C06
+namespace Fc.Drv.C06
+open Fc Fc.C06
+
+def showDType : DType → String
+  | .flt F => if F == f64 then "f64" else if F == f32 then "f32" else "f16"
+  | .int s b => (if s then "i" else "u") ++ toString b
+  | .str => "str"
+
+def encArr (a : NdArr) : List String :=
+  [showDType a.dtype, toString a.shape.length] ++ a.shape.map toString ++
+  [toString a.data.length] ++ a.data.map toString
+
+def encMesh (m : Mesh) : List String :=
+  [toString m.dim, toString m.points.length] ++ m.points.flatMap (·.map toString) ++
+  [toString m.cells.length] ++ m.cells.flatMap fun b =>
+    [b.1, toString b.2.length, toString ((b.2.head?.map List.length).getD 0)] ++ b.2.flatMap (·.map toString)
+
+def encFields (f : MeshFields) : String :=
+  ",".intercalate (encMesh f.mesh ++ [toString f.pointFields.length] ++
+    f.pointFields.flatMap (fun pf => pf.name :: encArr pf.values) ++
+    [toString f.cellFields.length] ++
+    f.cellFields.flatMap (fun cf => cf.name :: cf.ctype :: encArr cf.values))
+
+def opC06u : P String := do
+  let whole ← pMeshFields
+  let pieces ← pList pMeshFields
+  let hyp := mergeHyp pieces && whole.wf
+  let f3 := f3Class pieces
+  let part := Spec.isPartition whole pieces
+  let conf := Spec.conforming whole
+  match mergeAll lexsortIdx pieces with
+  | none => failure
+  | some m =>
+    let cnames := dedupNames (whole.cellFields.map (·.name))
+    let pnames := whole.pointFields.map (·.name)
+    let okby := Spec.readsAsWholeBy cnames pnames m whole && Spec.sameSchema m whole
+    pure s!"hyp={showBool hyp} f3={showBool f3} part={showBool part} conf={showBool conf} ok={showBool (Spec.readsAsWhole m whole)} okby={showBool okby} model={encFields m}"
+
+def pDecomp : P (List (List Nat)) := pList (pList pNat)
+
+def showNats (l : List Nat) : String := ",".intercalate (l.map toString)
+
+def opC06s : P String := do
+  let isPoint ← pBool
+  let d ← pDecomp
+  let locs := locationsIn (piecesShape d)
+  let idx := locs.map (pieceEntityIndices isPoint d)
+  let n := prodShape (mergedShape isPoint d)
+  let all := idx.flatten
+  let cover := (List.range n).all fun g => all.contains g
+  let once := (List.range n).all fun g => all.count g == 1
+  let hyp := 1 ≤ d.length && d.length ≤ 3 && d.all (fun ns => !ns.isEmpty)
+  pure s!"hyp={showBool hyp} idx={";".intercalate (idx.map showNats)} cover={showBool cover} once={showBool (once && all.length == n)} n={n}"
+
+def showInts (l : List Int) : String := ",".intercalate (l.map toString)
+
+def opC06sm : P String := do
+  let isPoint ← pBool
+  let d ← pDecomp
+  let vals ← pList (pList pInt)
+  let locs := locationsIn (piecesShape d)
+  if vals.length ≠ locs.length then failure
+  let cb := fun (loc : List Nat) => vals.getD (locs.idxOf loc) []
+  let hyp := mergeStructuredHyp isPoint d cb
+  pure s!"hyp={showBool hyp} model={showInts (mergeStructured isPoint d cb (-1))}"
+
+def opC06pv : P String := do
+  let isPoint ← pBool
+  let k ← pNat
+  let extents ← pMany (pMany pInt 6) k
+  let vals ← pMany (pList pInt) k
+  let sd := structuredDecomposition extents
+  let sizes := "|".intercalate (sd.cellsPerAxis.map showInts)
+  let locs := ";".intercalate (sd.pieceLocations.map showNats)
+  pure s!"sizes={sizes} meshed={showNats sd.meshedDimensions} locs={locs} model={showInts (pvtkMergeField isPoint extents vals (-1))}"
+
+/-- `c06pr <k> { b0 e0 b1 e1 b2 e2 }*k { <n0> x… <n1> y… <n2> z… }*k` → ordinates of the merged grid -/
+def opC06pr : P String := do
+  let k ← pNat
+  let extents ← pMany (pMany pInt 6) k
+  let ords ← pMany (pMany (pList pInt) 3) k
+  let sd := structuredDecomposition extents
+  match pvtrOrdinates sd ords with
+  | some o => pure s!"model={"|".intercalate (o.map showInts)}"
+  | none => pure "model=E"
 
 def handleC06 (op : String) : Option (P String) :=
   match op with
+  | "c06u" => some opC06u
+  | "c06s" => some opC06s
+  | "c06sm" => some opC06sm
+  | "c06pv" => some opC06pv
+  | "c06pr" => some opC06pr
   | _ => none
 
-end Fc.Drv
+end Fc.Drv.C06
+
+def Fc.Drv.handleC06 := Fc.Drv.C06.handleC06
